@@ -58,7 +58,7 @@ func genC06() {
 	facts["c06_psync_args"] = psyncs
 
 	var chans []string
-	for _, fn := range []string{"syncMeta", "syncData", "readChannel"} {
+	for _, fn := range []string{"syncMeta", "syncData", "readChannel", "sendOutput"} {
 		fd := c06Func(f, "RedisInput", fn)
 		ast.Inspect(fd.Body, func(n ast.Node) bool {
 			x, ok := n.(*ast.CallExpr)
